@@ -4,7 +4,11 @@
 //	              partitions and total shares (pure.go)
 //	keeper part : the SOURCE modules' real messages (swap deposit/withdraw, hard deposit/withdraw/
 //	              borrow/repay) for three users under random block partitions, with the incentive
-//	              BeginBlocker between blocks and reward claims (keeper.go, swap.go, hard.go)
+//	              BeginBlocker between blocks and reward claims (keeper.go)
+//	multi part  : claim objects fed by SEVERAL instances at once (three cdp collateral types, two swap
+//	              pools, two hard supply + two hard borrow denoms, two earn vaults sharing reward denoms):
+//	              per (user, claim object, reward denom) claims + accrued against the harness's own time
+//	              integral summed over the instances, and the claim rules (multi.go)
 package main
 
 import (
@@ -23,5 +27,8 @@ func main() {
 	if os.Getenv("C09_PURE_ONLY") != "" {
 		return
 	}
-	keeperPart(out, r.Fork(3))
+	if os.Getenv("C09_MULTI_ONLY") == "" {
+		keeperPart(out, r.Fork(3))
+	}
+	multiPart(out, r.Fork(5))
 }
